@@ -583,7 +583,7 @@ def find(pat, t):
 # ---------------------------------------------------------------------------
 # path predicates (loop-free part), inlining, normalisation
 
-def path_dnf(tb, target, max_paths=256):
+def path_dnf(tb, target, max_paths=256, include_asserts=False):
     """Disjunction of conjunctions of (cond term, truth) under which control reaches block `target`
     from the entry, following forward edges only (back edges ignored).  Returns list of frozensets,
     or None when there are too many paths."""
@@ -608,7 +608,8 @@ def path_dnf(tb, target, max_paths=256):
             if b == t["otherwise"]:
                 return [(("switch-other", c, tuple(v for v, _ in t["arms"])), True)]
             return [(("op", "Eq", c, ("const", vals[0])), True)] if len(vals) == 1 else []
-        if t["t"] == "assert":
+        if t["t"] == "assert" and include_asserts:
+            # compiler-inserted checks (overflow, bounds, division by zero): not part of the program's own predicate
             return [(tb.operand(p, None, t["cond"]), t["expected"])]
         return []
 
